@@ -492,7 +492,7 @@ pub fn document(rng: &mut Rng, kind: DocKind) -> String {
             DocKind::Valid => {
                 if rng.chance(250) {
                     // one very long line (columns beyond 65 535), with something wrong near its end
-                    let n = *rng.pick(&[3000usize, 9000]);
+                    let n = *rng.pick(&[2500usize, 7400]);
                     let mut t = String::from("proc main() {\n  var i: int; ");
                     for k in 0..n {
                         t.push_str(&format!("i := {}; ", k % 97));
@@ -694,6 +694,9 @@ pub fn copy_declaration(rng: &mut Rng, text: &str) -> Option<(std::ops::Range<us
         }
         i += 1;
     }
+    // (a declaration of many kilobytes is not copied: a session must not double a big document
+    // with every other step)
+    decls.retain(|d| d.len() <= 4096);
     if decls.is_empty() {
         return None;
     }
